@@ -69,6 +69,10 @@ let () =
       let kid_edges = Stdlib.List.sort compare (Stdlib.List.map (fun c -> c.inc) kids) in
       (match Tree.who_acts g wz with
        | Tree.WTraverser ->
+         (* the profile's weights over the menu are a probability distribution (every child is present here) *)
+         let tot = Stdlib.List.fold_left (fun a c -> a +. c.sigma) 0.0 kids in
+         if kids <> [] then spec "c08_strategy_weights_sum_to_one" (Float.abs (tot -. 1.0) <= 1e-4)
+             (Printf.sprintf "node %d: the action probabilities used by the estimator sum to %.6f" k tot);
          spec "c10_traverser_all_actions_once" (kid_edges = menu_s)
            (Printf.sprintf "node %d: children %s, menu %s" k (String.concat "," kid_edges) (String.concat "," menu_s))
        | Tree.WOpponent | Tree.WChance ->
